@@ -265,7 +265,9 @@ void do_join_all(Ctx &c, bool final_call) {
     for (int i = 1; i <= MAXT; i++) if (c.t[i].managed && c.t[i].launched_ok) in_s[i] = 1;
     bool manual_launchers_alive = false;
     for (int i = 1; i <= MAXT; i++)
-        if (c.t[i].defined && !c.t[i].managed && c.t[i].launched_ok && !c.t[i].joined_by_api) manual_launchers_alive = true;
+        if (c.t[i].defined && !c.t[i].managed && c.t[i].launched_ok && (!c.t[i].joined_by_api || (c.t[i].detached && !c.t[i].fn_done))) manual_launchers_alive = true;
+    // (a thread detached by clean_up keeps running on its own and may launch managed threads while or after this call runs, exactly like a
+    // joinable thread that has not been joined yet: "count is zero / a second call returns at once" is only owed once it has finished)
     int me = sim::self();
     c.ja_reads[me].clear();
     std::vector<uint64_t> &my_reads = c.ja_reads[me];
